@@ -5,6 +5,7 @@ import (
 	"go/token"
 	"go/types"
 	"strings"
+	"syscall"
 
 	"golang.org/x/tools/go/ssa"
 
@@ -142,7 +143,7 @@ func init() {
 		Decides: "the ordering protocol crash-consistency rests on, on every path of the anchored functions: WriteAtomic = write(tmp)→fsync→close→rename→fsync(dir); " +
 			"Write syncs before success; LocalFile/seqWriter close paths sync and the seqSynced flag is reset by every write; part metadata (the commit record) is written last and atomically in mustFlush/FinishSync/mergeParts (M,S,T,X); " +
 			"snapshot manifests are written atomically, before garbage registration; only registerSnapshot feeds the delete list; flushed/merged/synced introductions persist the manifest before close(applied); " +
-			"a failed merge removes its output on every exit; startup keeps a part only if its name parses and its metadata validates, tries snapshots newest-first; raw os file mutation stays out of the engine packages.",
+			"a failed merge removes its output on every exit; startup keeps a part only if its name parses and its metadata validates, tries snapshots newest-first; raw os file mutation stays out of the engine packages; WriteAtomic opens its temporary sibling truncated (a tmp left by a crashed attempt cannot leak its tail); on trace recovery the secondary index is told the MANIFEST's part list, not the directory scan; a segment whose metadata file exists but is empty is discarded as half-born, never handed to the parser.",
 		NotDecided: "that the state found after a crash is a prefix of acknowledged batches; kernel power-loss semantics; torn writes inside one write(2).",
 		Technique:  "CFG must-pass-through / dominance ordering rules on SSA with interprocedural definitely-calls summaries; who-may-call and field-write confinement",
 		Run:        runC04,
@@ -178,6 +179,29 @@ func runC04(c *core.Ctx) {
 			}
 		}
 		r.Check(ok, rule, construct, pos, "the file opened for writing is name+<const> and os.Rename moves exactly that file onto the name parameter")
+	}
+	// 1b. the temporary sibling starts empty: a tmp left by a crashed attempt must not leak its tail
+	if f := r.fn("c04.write-atomic.tmp-fresh", fsPkg, "(*localFileSystem).WriteAtomic"); f != nil {
+		rule := "c04.write-atomic.tmp-fresh"
+		for _, in := range ssax.Find(f, ssax.CallTo("os.OpenFile")) {
+			a := in.(*ssa.Call).Call.Args
+			construct := ssax.FuncName(f) + ": tmp file opened with O_TRUNC or O_EXCL"
+			c, ok := a[1].(*ssa.Const)
+			if !ok || c.Value == nil {
+				r.Undecide(rule, construct, r.pos(in), "open flags are not a compile-time constant")
+				continue
+			}
+			flags := c.Int64()
+			// a preceding removal or a following Truncate(0) would do as well
+			other := len(ssax.Find(f, func(x ssa.Instruction) bool {
+				return (ssax.CallTo("os.Remove", "os.Truncate", "(*os.File).Truncate")(x)) && ssax.Dominates(x, in)
+			})) > 0 || len(ssax.Find(f, func(x ssa.Instruction) bool {
+				return ssax.CallTo("(*os.File).Truncate")(x) && ssax.Dominates(in, x)
+			})) > 0
+			r.Check(flags&int64(syscall.O_TRUNC|syscall.O_EXCL) != 0 || other, rule, construct, r.pos(in),
+				fmt.Sprintf("flags=%#x: WriteAtomic leaves <name>.tmp behind when the process dies before the rename; without O_TRUNC/O_EXCL the next attempt writes over the head of the stale file and renames a payload with a foreign tail into place", flags))
+		}
+		r.Floor(rule, 1)
 	}
 	if f := r.fn("c04.syncdir", fsPkg, "syncDir"); f != nil {
 		r.mustSeq("c04.syncdir", f, exitOK(f), nil, call("os.Open"), osSync)
@@ -571,6 +595,149 @@ func runC04(c *core.Ctx) {
 		}
 		r.Stat("functions_scanned_raw_os", nfun)
 		r.Hold(rule, "engine packages", "", fmt.Sprintf("%d functions scanned; %d raw calls, all in exempt files (migration_*, benchmark_*, failed_parts_handler)", nfun, nsites))
+	}
+
+	// recovery: the secondary index is told which parts are live from the MANIFEST, not from the directory scan
+	if f := r.fn("c04.sidx-from-manifest", sibT.pkg, "(*tsTable).loadSnapshot"); f != nil {
+		rule := "c04.sidx-from-manifest"
+		n := 0
+		for _, in := range ssax.Find(f, ssax.CallTo("(*"+sibT.pkg+".tsTable).loadSidxMap")) {
+			n++
+			arg := in.(*ssa.Call).Call.Args[len(in.(*ssa.Call).Call.Args)-1]
+			construct := ssax.FuncName(f) + ": loadSidxMap receives the manifest's part list"
+			fromManifest, rawScan := false, false
+			seen := map[ssa.Value]bool{}
+			var walk func(v ssa.Value)
+			walk = func(v ssa.Value) {
+				if seen[v] {
+					return
+				}
+				seen[v] = true
+				switch x := v.(type) {
+				case *ssa.Parameter:
+					rawScan = true
+				case *ssa.Extract:
+					walk(x.Tuple)
+				case *ssa.Call:
+					if strings.HasSuffix(ssax.CalleeName(x.Common()), ".readSnapshot") {
+						fromManifest = true
+					}
+				case *ssa.Phi:
+					for _, e := range x.Edges {
+						walk(e)
+					}
+				case *ssa.Slice:
+					walk(x.X)
+				case *ssa.ChangeType:
+					walk(x.X)
+				}
+			}
+			walk(arg)
+			switch {
+			case rawScan:
+				r.Violate(rule, construct, r.pos(in), "the list handed to the secondary index is the directory-scan parameter: parts written by a flush or merge that crashed before its manifest was published are kept and served by the index although the core parts were discarded as orphans")
+			case fromManifest:
+				r.Hold(rule, construct, r.pos(in), "argument is the result of readSnapshot")
+			default:
+				r.Hold(rule, construct, r.pos(in), "argument is a derived list (not the raw scan parameter)")
+			}
+		}
+		if n == 0 {
+			r.Undecide(rule, ssax.FuncName(f)+": loadSidxMap is called", r.fpos(f), "no loadSidxMap call in loadSnapshot")
+		}
+	}
+
+	// recovery: a segment whose metadata file exists but is empty (crash between create and write) is
+	// treated as half-born, never handed to the parser (whose error would abort the whole start-up)
+	if f := r.fn("c04.half-born-segment", "banyand/internal/storage", "(*segmentController).open"); f != nil {
+		rule := "c04.half-born-segment"
+		n := 0
+		for _, g := range append([]*ssa.Function{f}, f.AnonFuncs...) {
+			for _, rd := range ssax.Find(g, ssax.CallTo("iface:(pkg/fs.FileSystem).Read")) {
+				var raw ssa.Value
+				for _, ref := range *rd.(*ssa.Call).Referrers() {
+					if ex, ok := ref.(*ssa.Extract); ok && ex.Index == 0 {
+						raw = ex
+					}
+				}
+				parse := func(in ssa.Instruction) bool {
+					c, ok := in.(*ssa.Call)
+					if !ok || raw == nil {
+						return false
+					}
+					if _, isB := c.Call.Value.(*ssa.Builtin); isB {
+						return false
+					}
+					for _, a := range c.Call.Args {
+						if a == raw {
+							return true
+						}
+						if sl, ok := a.(*ssa.Slice); ok && sl.X == raw {
+							return true
+						}
+					}
+					return false
+				}
+				isLen := func(v ssa.Value) bool {
+					c, ok := v.(*ssa.Call)
+					if !ok {
+						return false
+					}
+					b, ok := c.Call.Value.(*ssa.Builtin)
+					return ok && b.Name() == "len" && c.Call.Args[0] == raw
+				}
+				// world: the read succeeded and returned an existing, zero-length file (non-nil empty slice)
+				edge := func(from *ssa.BasicBlock, succ int) bool {
+					iff, ok := from.Instrs[len(from.Instrs)-1].(*ssa.If)
+					if !ok {
+						return true
+					}
+					bo, ok := iff.Cond.(*ssa.BinOp)
+					if !ok {
+						return true
+					}
+					if isLen(bo.X) || isLen(bo.Y) {
+						lv := bo.X
+						if isLen(bo.Y) {
+							lv = bo.Y
+						}
+						return ssax.WorldEdge(lv, 0)(from, succ)
+					}
+					if (bo.X == raw && ssax.IsNilConst(bo.Y) || bo.Y == raw && ssax.IsNilConst(bo.X)) && (bo.Op == token.EQL || bo.Op == token.NEQ) {
+						if bo.Op == token.EQL {
+							return succ == 1
+						}
+						return succ == 0
+					}
+					return true
+				}
+				if raw == nil || len(ssax.Find(g, parse)) == 0 {
+					continue
+				}
+				n++
+				construct := ssax.FuncName(g) + ": an empty metadata file never reaches the parser"
+				if tgt, path, found := (ssax.Search{Target: parse, Edge: edge}).From(g, rd); found {
+					// the parser itself may reject the empty input gracefully: look for a len(param) test at its entry
+					if cal := tgt.(*ssa.Call).Call.StaticCallee(); cal != nil && len(cal.Params) > 0 && len(ssax.Find(cal, func(in ssa.Instruction) bool {
+						c, ok := in.(*ssa.Call)
+						if !ok {
+							return false
+						}
+						b, ok := c.Call.Value.(*ssa.Builtin)
+						return ok && b.Name() == "len" && c.Call.Args[0] == cal.Params[0]
+					})) > 0 {
+						r.Hold(rule, construct, r.pos(tgt), "the callee tests len() of its input itself")
+						continue
+					}
+					r.Violate(rule, construct, r.pos(tgt), fmt.Sprintf("with a zero-length metadata file (created, never written: crash between create and write) control reaches %s (blocks %s): its parse error aborts opening the whole database instead of discarding the half-born segment", ssax.CalleeName(tgt.(*ssa.Call).Common()), blocksStr(path)))
+				} else {
+					r.Hold(rule, construct, r.pos(rd), "unreachable in the world len(rawMeta)==0, rawMeta!=nil")
+				}
+			}
+		}
+		if n == 0 {
+			r.Undecide(rule, ssax.FuncName(f)+": metadata read-then-parse site found", r.fpos(f), "no Read→parse site in open")
+		}
 	}
 }
 
